@@ -14,7 +14,7 @@ SKIP = ('GetIterator', 'GetIteratorAt', 'GetBackwardIterator', 'GetBackwardItera
 
 # (alias, harness argument declarations, call arguments, loops?)
 ISLOC = '_ZNK6muscle5QueueIiE28IsItemLocatedInThisContainerERKi'
-MIRROR = {'InternalizeIndex': '', 'NextIndex': '', 'PrevIndex': '', 'RemoveItemAt__1': 'mv_a0 = i;', 'RemoveItemAt__2': 'mv_a0 = i;', 'RemoveHeadMulti': 'mv_a0 = n;', 'RemoveTailMulti': 'mv_a0 = n;', 'ReplaceItemAt__2': 'mv_a0 = i;', 'InsertItemAt__2': 'mv_a0 = i;', 'Clear': 'mv_a0 = b;', 'EnsureSize': 'mv_a0 = n;', 'EnsureSizeAux': 'mv_a0 = n;', 'ReverseItemOrdering': 'mv_a0 = a; mv_a1 = b;', 'IndexOf': 'mv_a0 = a; mv_a1 = b;', 'LastIndexOf': 'mv_a0 = a; mv_a1 = b;'}
+MIRROR = {'InternalizeIndex': '', 'NextIndex': '', 'PrevIndex': '', 'RemoveItemAt__1': 'mv_a0 = i;', 'RemoveItemAt__2': 'mv_a0 = i;', 'RemoveHeadMulti': 'mv_a0 = n;', 'RemoveTailMulti': 'mv_a0 = n;', 'ReplaceItemAt__2': 'mv_a0 = i;', 'InsertItemAt__2': 'mv_a0 = i;', 'Clear': 'mv_a0 = b;', 'EnsureSize': 'mv_a0 = n; mv_a1 = e; mv_ai = (s ? 1 : 0) | (a ? 2 : 0);', 'EnsureSizeAux': 'mv_a0 = n; mv_a1 = e; mv_ai = (s ? 1 : 0) | (a ? 2 : 0);', 'ReverseItemOrdering': 'mv_a0 = a; mv_a1 = b;', 'Swap': 'mv_a0 = a; mv_a1 = b;', 'GetArrayPointerAux': 'mv_a0 = w;', 'IndexOf': 'mv_a0 = a; mv_a1 = b;', 'LastIndexOf': 'mv_a0 = a; mv_a1 = b;'}
 H = [
     ('Queue_int__InternalizeIndex', '_ZNK6muscle5QueueIiE16InternalizeIndexEj', 'QI *q; unsigned int i;', 'q, i', False),
     ('Queue_int__NextIndex', '_ZNK6muscle5QueueIiE9NextIndexEj', 'QI *q; unsigned int i;', 'q, i', False),
@@ -35,6 +35,23 @@ H = [
     ('Queue_int__FastClear', '_ZN6muscle5QueueIiE9FastClearEv', 'QI *q;', 'q', True),
     ('Queue_int__EnsureSize', '_ZN6muscle5QueueIiE10EnsureSizeEjbjb', 'QI *q; unsigned int n; _Bool s; unsigned int e; _Bool a;', 'q, n, s, e, a', True),
     ('Queue_int__EnsureSizeAux', '_ZN6muscle5QueueIiE13EnsureSizeAuxEjbjPPib', 'QI *q; unsigned int n; _Bool s; unsigned int e; int **r; _Bool a;', 'q, n, s, e, r, a', True),
+    ('Queue_int__StartsWith__item', '_ZNK6muscle5QueueIiE10StartsWithERKi', 'QI *q; int *x;', 'q, x', True),
+    ('Queue_int__EndsWith__item', '_ZNK6muscle5QueueIiE8EndsWithERKi', 'QI *q; int *x;', 'q, x', True),
+    ('Queue_int__Contains', '_ZNK6muscle5QueueIiE8ContainsERKijj', 'QI *q; int *x; unsigned int a; unsigned int b;', 'q, x, a, b', True),
+    ('Queue_int__IsNormalized', '_ZNK6muscle5QueueIiE12IsNormalizedEv', 'QI *q;', 'q', True),
+    ('Queue_int__GetItemAt__ret', '_ZNK6muscle5QueueIiE9GetItemAtEjRi', 'QI *q; unsigned int i; int *r;', 'q, i, r', True),
+    ('Queue_int__GetWithDefault__1', '_ZNK6muscle5QueueIiE14GetWithDefaultEj', 'QI *q; unsigned int i;', 'q, i', True),
+    ('Queue_int__HeadWithDefault__0', '_ZNK6muscle5QueueIiE15HeadWithDefaultEv', 'QI *q;', 'q', True),
+    ('Queue_int__TailWithDefault__0', '_ZNK6muscle5QueueIiE15TailWithDefaultEv', 'QI *q;', 'q', True),
+    ('Queue_int__RemoveHeadWithDefault', '_ZN6muscle5QueueIiE21RemoveHeadWithDefaultEv', 'QI *q;', 'q', True),
+    ('Queue_int__RemoveTailWithDefault', '_ZN6muscle5QueueIiE21RemoveTailWithDefaultEv', 'QI *q;', 'q', True),
+    ('Queue_int__RemoveItemAtWithDefault', '_ZN6muscle5QueueIiE23RemoveItemAtWithDefaultEj', 'QI *q; unsigned int i;', 'q, i', True),
+    ('Queue_int__ReplaceAllItems', '_ZN6muscle5QueueIiE15ReplaceAllItemsERKi', 'QI *q; int *x;', 'q, x', True),
+    ('Queue_int__eq', '_ZNK6muscle5QueueIiEeqERKS1_', 'QI *q; QI *o;', 'q, o', True),
+    ('Queue_int__ShrinkToFit', '_ZN6muscle5QueueIiE11ShrinkToFitEj', 'QI *q; unsigned int n;', 'q, n', True),
+    ('Queue_int__EnsureCanAdd', '_ZN6muscle5QueueIiE12EnsureCanAddEj', 'QI *q; unsigned int n;', 'q, n', True),
+    ('Queue_int__GetArrayPointerAux', '_ZNK6muscle5QueueIiE18GetArrayPointerAuxEjRj', 'QI *q; unsigned int w; unsigned int *l;', 'q, w, l', True),
+    ('Queue_int__Swap', '_ZN6muscle5QueueIiE4SwapEjj', 'QI *q; unsigned int a; unsigned int b;', 'q, a, b', True),
     ('Queue_int__Normalize', '_ZN6muscle5QueueIiE9NormalizeEv', 'QI *q;', 'q', True),
     ('Queue_int__ReverseItemOrdering', '_ZN6muscle5QueueIiE19ReverseItemOrderingEjj', 'QI *q; unsigned int a; unsigned int b;', 'q, a, b', True),
     ('Queue_int__IndexOf', '_ZNK6muscle5QueueIiE7IndexOfERKijj', 'QI *q; int *x; unsigned int a; unsigned int b;', 'q, x, a, b', True),
